@@ -530,6 +530,80 @@ def answerBatch (pre post : List String) : String :=
     | _, _, _, _ => "bad-case parse-batch"
   | _ => "bad-case shape-batch"
 
+/-! ## net suite -/
+
+def parseNetCfg (s : String) : Option (Nat × List (List Nat) × String) :=
+  match s.splitOn "/" with
+  | [n, t, b] => do
+    let n ← (dropS n 1).toNat?
+    let out : Option Nat ← if t == "A" || t == "T" then some none
+      else if t.startsWith "O" then (dropS t 1).toNat?.map some else none
+    let trusts := (List.range n).map (fun i => (List.range n).filter (fun j => j != i && some j != out))
+    pure (n, trusts, t ++ "-" ++ b)
+  | _ => none
+
+/-- operations of one phase; `vals` feeds the value ids of the pins in order -/
+def parseNetOps : List String → List Nat → Option (List (Nat × BOp) × List Nat)
+  | [], vals => some ([], vals)
+  | st :: rest, vals =>
+    match st.splitOn "P" with
+    | [r, tok] =>
+      match vals, r.toNat?, (tok.splitOn "/").head?.bind String.toNat? with
+      | v :: vs, some r, some c => (parseNetOps rest vs).map (fun p => ((r, BOp.put c v) :: p.1, p.2))
+      | _, _, _ => none
+    | _ =>
+      match st.splitOn "U" with
+      | [r, c] => do
+        let r ← r.toNat?
+        let c ← c.toNat?
+        let p ← parseNetOps rest vals
+        pure ((r, BOp.del c) :: p.1, p.2)
+      | _ => none
+
+def parseNetPhases : List String → List Nat → Option (List (List (Nat × BOp)))
+  | [], _ => some []
+  | ph :: rest, vals => do
+    let p ← parseNetOps (splitSemi ph) vals
+    let l ← parseNetPhases rest p.2
+    pure (p.1 :: l)
+
+def parseRes (s : String) : Option Result :=
+  if s == "o" then some .ok else if s == "r" then some .refused else if s == "e" then some .err else none
+
+def parseNetObs (s : String) : Option NetObs :=
+  match s.splitOn "/" with
+  | [st, cl] => do pure { state := ← parsePairs st, calls := ← parseHooks cl }
+  | _ => none
+
+def parseNetPhaseOut (s : String) : Option (List Result × List NetObs) :=
+  match s.splitOn "#" with
+  | r :: obs => do pure (← listOf parseRes r, ← obs.mapM parseNetObs)
+  | _ => none
+
+def answerNet (pre post : List String) : String :=
+  match pre with
+  | [cfgW, script] =>
+    match parseNetCfg cfgW, kvArg "vals=" post, kvArg "ph=" post with
+    | some (n, trusts, tag), some valsW, some phW =>
+      match nats valsW, (phW.splitOn "|").mapM parseNetPhaseOut with
+      | some vals, some outs =>
+        match parseNetPhases (script.splitOn "|") vals with
+        | none => "bad-case net-script"
+        | some phases =>
+          if phases.length != outs.length || (phases.zip outs).any (fun p => p.1.length != p.2.1.length) ||
+             outs.any (fun o => o.2.length != n) then "bad-case net-shape" else
+          let nphases : List (List NetOp) :=
+            (phases.zip outs).map (fun p => (p.1.zip p.2.1).map (fun q => NetOp.mk q.1.1 q.1.2 q.2))
+          let c : NetCase := NetCase.mk n trusts nphases (outs.map (·.2))
+          let fl := failed (netClauses c)
+          let nops := (phases.map List.length).foldl (· + ·) 0
+          let arm := "net-r" ++ toString n ++ "-" ++ tag
+          if !fl.isEmpty then "propfail " ++ ",".intercalate fl ++ " arm=" ++ arm ++ " expl=unexplained model=none"
+          else "ok arm=" ++ arm ++ (if nops == 0 then " trivial" else "")
+      | _, _ => "bad-case parse-net-output"
+    | _, _, _ => "bad-case parse-net"
+  | _ => "bad-case shape-net"
+
 def answer (ws : List String) : String :=
   match splitArrow ws with
   | none => "bad-case no-arrow"
@@ -537,6 +611,7 @@ def answer (ws : List String) : String :=
     match pre with
     | "set" :: rest => answerSet rest post
     | "batch" :: rest => answerBatch rest post
+    | "net" :: rest => answerNet rest post
     | _ => "bad-case unknown-suite"
 
 end CV.C02
